@@ -81,6 +81,8 @@ def shards(tier):
                     if nb in (3, 10) and lmax == t["L_max"][0]:
                         for via in ("set-Kp", "set-K"):
                             out.append({"law": law, "prm": list(prm), "L_max": lmax, "bins": nb, "perpoint": False, "via": via})
+                        for via in ("deepcopy", "pickle"):
+                            out.append({"law": law, "prm": list(prm), "L_max": lmax, "bins": nb, "perpoint": nb == 3, "via": via})
     out.sort(key=lambda s: s["bins"])
     return out
 
@@ -105,6 +107,13 @@ def _binned(cfg, maximum):
         via = cfg.get("via")
         if not via:
             return Binned(_law(cfg), maximum, cfg["bins"])
+        if via in ("deepcopy", "pickle"):
+            # the object looked at is a copy of the one that was initialised (a detector holding it is deep-copied by
+            # the assessment itself; objects sent to worker processes are pickled)
+            import copy
+            import pickle
+            b = Binned(_law(cfg), maximum, cfg["bins"])
+            return copy.deepcopy(b) if via == "deepcopy" else pickle.loads(pickle.dumps(b))
         _, E, K, n, Kp = cfg["prm"]
         law = _law(dict(cfg, prm=[cfg["prm"][0], E, K, n, Kp + 1.5] if via == "set-Kp" else [cfg["prm"][0], E, 1.7 * K, n, Kp]))
         Binned(law, maximum, cfg["bins"])
@@ -113,6 +122,11 @@ def _binned(cfg, maximum):
         else:
             law.K = K
         return Binned(law, maximum, cfg["bins"])
+
+
+def _sfx(cfg):
+    via = cfg.get("via")
+    return "" if not via else "/copy-of-the-object" if via in ("deepcopy", "pickle") else "/after-setters"
 
 
 def _maxima_series(cfg, mult):
@@ -334,8 +348,10 @@ def probe_series(cfg, b, tab, branch, loads, acc):
     return out
 
 
-def probe_perpoint(cfg, bm, mtab, mult, branch, pattern, frac, acc):
-    """Per-point Series: point i gets sign_i * frac-th load of its own list; all points are in the same class."""
+def probe_perpoint(cfg, bm, mtab, mult, branch, pattern, frac, acc, held=None):
+    """Per-point Series: point i gets sign_i * frac-th load of its own list; all points are in the same class.
+    held: dict what -> (result object of the preceding look-up, its expected values): a result that was handed out must
+    still hold its values after the next look-up of the same quantity."""
     import pandas as pd
     fmeth, smeth = BR[branch][4], BR[branch][5]
     nodes = NODE_IDS[:len(mult)]
@@ -375,6 +391,14 @@ def probe_perpoint(cfg, bm, mtab, mult, branch, pattern, frac, acc):
             out.append(("C07/%s/%s/per-point/wrong-shape" % (branch, what), case))
         elif got != exp:
             out.append(("C07/%s/%s/per-point/not-the-upper-edge-value" % (branch, what), dict(case, got=got, expected=exp)))
+        elif held is not None:
+            if what in held:
+                old_v, old_exp = held[what]
+                now = _vals(old_v, len(old_exp))
+                if now != old_exp:
+                    out.append(("C07/%s/%s/per-point/result-handed-out-earlier-changed-by-the-next-look-up" % (branch, what),
+                                dict(case, earlier_result_now=now, earlier_result_was=old_exp)))
+            held[what] = (v, exp)
     return out, loads
 
 
@@ -445,7 +469,7 @@ def run_shard(cfg):
 
     def report(viol, probe):
         for key, detail in viol:
-            acc.violation(key + ("/after-setters" if cfg.get("via") else ""), {"cfg": cfg, "probe": probe}, detail)
+            acc.violation(key + _sfx(cfg), {"cfg": cfg, "probe": probe}, detail)
 
     report(probe_table(cfg, acc), {"p": "table"})
     acc.cases += 1
@@ -495,17 +519,20 @@ def run_shard(cfg):
                 for pattern in SIGN_PATTERNS:
                     if len(mult) == 1 and pattern == "+-":
                         continue
+                    held, prev = {}, None
                     for frac in _fracs(cfg, branch):
                         acc.cases += 1
                         if frac[0] != "inside":
                             acc.nontrivial += 1
-                        viol, loads = probe_perpoint(cfg, bm, mtab, mult, branch, pattern, frac, acc)
-                        report(viol, {"p": "perpoint", "branch": branch, "maxima": mult, "signs": pattern, "frac": list(frac)})
+                        viol, loads = probe_perpoint(cfg, bm, mtab, mult, branch, pattern, frac, acc, held)
+                        report(viol, {"p": "perpoint", "branch": branch, "maxima": mult, "signs": pattern, "frac": list(frac),
+                                      "previous_frac": prev})
+                        prev = list(frac)
     return acc
 
 
 def replay(case):
-    sfx = "/after-setters" if case["cfg"].get("via") else ""
+    sfx = _sfx(case["cfg"])
     return [(k + sfx, d) for k, d in _replay(case)]
 
 
@@ -517,7 +544,10 @@ def _replay(case):
     if probe["p"] == "perpoint":
         mult = probe["maxima"]
         bm = _binned(cfg, _maxima_series(cfg, mult))
-        return probe_perpoint(cfg, bm, _mtables(cfg, bm, mult), mult, probe["branch"], probe["signs"], tuple(probe["frac"]), acc)[0]
+        mtab, held = _mtables(cfg, bm, mult), {}
+        if probe.get("previous_frac") is not None:
+            probe_perpoint(cfg, bm, mtab, mult, probe["branch"], probe["signs"], tuple(probe["previous_frac"]), acc, held)
+        return probe_perpoint(cfg, bm, mtab, mult, probe["branch"], probe["signs"], tuple(probe["frac"]), acc, held)[0]
     b = _binned(cfg, cfg["L_max"])
     tab = _tables(cfg, b)
     if probe["p"] == "scalar":
